@@ -64,3 +64,62 @@ theorem inRect_other_row (g : Seg) (r c : Nat) (h : r ≠ g.row) : Term.inRect g
   · simp [h1]
 
 end TIV.C18
+
+namespace TIV.C18
+open TIV
+
+/-- what `_ti_clear_images` can do to the disguise counters: nothing, the class-level bump, or one bump of
+some widgets (never both) -/
+theorem tiClear_state (e : Env) (s : Scr) (shards : List Shard) :
+    ((tiClear e s shards).1.cdis = s.cdis ∧
+      ∀ g, (tiClear e s shards).1.wd g = s.wd g ∨ (tiClear e s shards).1.wd g = (s.wd g + 1) % 3) ∨
+    ((tiClear e s shards).1.cdis = (s.cdis + 1) % 3 ∧ ∀ g, (tiClear e s shards).1.wd g = s.wd g) := by
+  have hwd : ∀ (a : List View) (b : Option Nat) (c' : Nat) (F : Scr) (g : Nat),
+      ({ cviews := a, canvas := b, cdis := c', wdis := F.wdis } : Scr).wd g = F.wd g := fun _ _ _ _ _ => rfl
+  unfold tiClear
+  by_cases hsup : (!(e.kittySup || (e.itermSup && e.konsole))) = true
+  · simp only [hsup, ↓reduceIte]
+    first | exact Or.inl ⟨rfl, fun g => Or.inl rfl⟩ | simp [Scr.wd]
+  · simp only [hsup]
+    cases hws : staleLoop e (stale s.cviews (walk e shards)) [] with
+    | none =>
+      simp only []
+      unfold clearAll
+      by_cases hk : e.kittySup = true
+      · simp only [hk, Bool.not_true, Bool.false_eq_true, ↓reduceIte, dmod_eq]
+        first | exact Or.inr ⟨rfl, fun g => rfl⟩ | simp [Scr.wd]
+      · simp only [hk]
+        first | exact Or.inl ⟨rfl, fun g => Or.inl rfl⟩ | simp [Scr.wd]
+    | some ws =>
+      cases ws with
+      | nil => first | exact Or.inl ⟨rfl, fun g => Or.inl rfl⟩ | simp [Scr.wd]
+      | cons w0 ws0 =>
+        simp only []
+        unfold clearWidgets
+        by_cases hk : e.kittySup = true
+        · simp only [hk, Bool.not_true, Bool.false_eq_true, ↓reduceIte]
+          obtain ⟨_, _, _, hnd⟩ := collectKitty_spec (w0 :: ws0) []
+          refine Or.inl ⟨?_, ?_⟩
+          · exact (foldl_bump (collectKitty (w0 :: ws0) []) s (hnd (by simp)) 0).1
+          · intro g
+            obtain ⟨_, h2⟩ := foldl_bump (collectKitty (w0 :: ws0) []) s (hnd (by simp)) g
+            rw [hwd, h2, dmod_eq]
+            by_cases hm : g ∈ (collectKitty (w0 :: ws0) []).map (·.1)
+            · simp [hm]
+            · simp [hm]
+        · simp only [hk]
+          first | exact Or.inl ⟨rfl, fun g => Or.inl rfl⟩ | simp [Scr.wd]
+
+/-- after `clear_images()` (delete-all + class-level bump) and whatever the next `_ti_clear_images` does,
+the disguise of every widget differs from what it was at the previous redraw -/
+theorem clear_then_tiClear_disguise (e : Env) (s : Scr) (shards : List Shard) (hk : e.kittySup = true) (g : Nat) :
+    (tiClear e (clearAll e s).1 shards).1.disguise g ≠ s.disguise g := by
+  have h1 : (clearAll e s).1.cdis = (s.cdis + 1) % 3 ∧ (clearAll e s).1.wd g = s.wd g := by
+    simp [clearAll, hk, dmod_eq, Scr.wd]
+  rcases tiClear_state e (clearAll e s).1 shards with ⟨hc, hw⟩ | ⟨hc, hw⟩
+  · simp only [Scr.disguise, hc, h1.1]
+    rcases hw g with h | h <;> rw [h, h1.2] <;> omega
+  · simp only [Scr.disguise, hc, h1.1, hw g, h1.2]
+    omega
+
+end TIV.C18
